@@ -7,6 +7,8 @@
 //!               base address offsets 0..15 and buffer lengths around the advertised size
 //!   carve.size  `Outline::required_buffer_size` (random records; real glyphs: `draw_memory_size`)
 //!   eff         `LocationRef::effective_coords` (observed through `HintingInstance::location`)
+//!   vstack      the interpreter's `ValueStack` on dirty backing memory (hook `hint_value_stack::run`)
+//!   rpf         `SimpleGlyph::read_points_fast` into dirty point / flag buffers
 //! Model-independent oracles on the public API (corpus fonts + every glyph/size/location/hinting mix):
 //!   grammar, finiteness, draw twice, caller memory of the advertised size at misaligned bases,
 //!   None vs all-zero location, fresh vs reused HintingInstance, instance state untouched by draws,
@@ -940,8 +942,9 @@ enum SGlyph {
     Empty,
     /// contours given as point counts; instructions
     Simple { contours: Vec<usize>, instr: Vec<u8> },
-    /// component glyph ids; `Some(instr)` sets WE_HAVE_INSTRUCTIONS
-    Composite { comps: Vec<u16>, instr: Option<Vec<u8>> },
+    /// component glyph ids; `Some(instr)` sets WE_HAVE_INSTRUCTIONS; `anchors[i] = Some((base, component))`
+    /// positions component i by matching points instead of by an offset
+    Composite { comps: Vec<u16>, instr: Option<Vec<u8>>, anchors: Vec<Option<(u8, u8)>> },
 }
 
 struct SFont {
@@ -989,14 +992,18 @@ fn encode_glyph(gid: usize, g: &SGlyph) -> Vec<u8> {
                 be16(&mut v, if i == 0 { 50 } else { [35, 110, -20, -75][(i + 2 * gid) % 4] });
             }
         }
-        SGlyph::Composite { comps, instr } => {
+        SGlyph::Composite { comps, instr, anchors } => {
             be16(&mut v, -1);
             for b in [0, 0, 1000, 1000] {
                 be16(&mut v, b);
             }
             for (i, c) in comps.iter().enumerate() {
                 let last = i + 1 == comps.len();
+                let anchor = anchors.get(i).copied().flatten();
                 let mut flags = 0x0001 | 0x0002; // words, xy values
+                if anchor.is_some() {
+                    flags = 0x0001; // words, point numbers
+                }
                 if !last {
                     flags |= 0x0020;
                 } else if instr.is_some() {
@@ -1004,8 +1011,13 @@ fn encode_glyph(gid: usize, g: &SGlyph) -> Vec<u8> {
                 }
                 be16(&mut v, flags);
                 be16(&mut v, *c as i32);
-                be16(&mut v, 30 * i as i32);
-                be16(&mut v, -20 * i as i32);
+                if let Some((base, comp)) = anchor {
+                    be16(&mut v, base as i32);
+                    be16(&mut v, comp as i32);
+                } else {
+                    be16(&mut v, 30 * i as i32);
+                    be16(&mut v, -20 * i as i32);
+                }
             }
             if let Some(ins) = instr {
                 be16(&mut v, ins.len() as i32);
@@ -1104,7 +1116,7 @@ fn expand_tree(f: &SFont, gid: usize, depth: usize, out: &mut Vec<i64>, budget: 
         Some(SGlyph::Simple { contours, instr }) => {
             out.extend_from_slice(&[0, contours.iter().sum::<usize>() as i64, contours.len() as i64, (!instr.is_empty()) as i64]);
         }
-        Some(SGlyph::Composite { comps, instr }) => {
+        Some(SGlyph::Composite { comps, instr, .. }) => {
             out.extend_from_slice(&[1, comps.len() as i64, instr.as_ref().map_or(false, |i| !i.is_empty()) as i64]);
             for c in comps {
                 expand_tree(f, *c as usize, depth + 1, out, budget)?;
@@ -1141,7 +1153,14 @@ fn part_counts(cfg: &Config, s: &mut Session, rng: &mut Rng) {
                             }
                         })
                         .collect();
-                    SGlyph::Composite { comps, instr: if rng.chance(1, 3) { Some(vec![0x4f]) } else if rng.chance(1, 8) { Some(vec![]) } else { None } }
+                    // sometimes position components by matching points: indices inside and outside of
+                    // what has been loaded when the component is placed
+                    let anchors: Vec<Option<(u8, u8)>> = if rng.chance(1, 3) {
+                        (0..k).map(|_| if rng.chance(1, 2) { Some((rng.below(14) as u8, rng.below(9) as u8)) } else { None }).collect()
+                    } else {
+                        vec![]
+                    };
+                    SGlyph::Composite { comps, instr: if rng.chance(1, 3) { Some(vec![0x4f]) } else if rng.chance(1, 8) { Some(vec![]) } else { None }, anchors }
                 }
             };
             glyphs.push(g);
@@ -1370,7 +1389,7 @@ fn state_font(rng: &mut Rng, sig: u64) -> SFont {
         simple(idef_glyph(CUSTOM)),
         simple(idef_glyph(CUSTOM2)),
         simple(g8),
-        SGlyph::Composite { comps: vec![1, 8], instr: Some(vec![SVTCA_Y]) },
+        SGlyph::Composite { comps: vec![1, 8], instr: Some(vec![SVTCA_Y]), anchors: vec![] },
         simple(vec![]),
     ];
     SFont {
@@ -1465,6 +1484,156 @@ fn diff_hint(a: &str, b: &str) -> String {
     format!("lengths {} vs {}", pa.len(), pb.len())
 }
 
+// ---------------------------------------------------------------------------------------------
+// part F: the interpreter's value stack on dirty backing memory (hook hint_value_stack::run)
+
+fn part_vstack(cfg: &Config, s: &mut Session, rng: &mut Rng) {
+    let n = if cfg.thorough() { 60000 } else { 6000 };
+    for _ in 0..n {
+        let cap = rng.below(12) as usize;
+        let pedantic = rng.chance(1, 2);
+        let prefill = *rng.pick(&[0i32, -1, 7, 0x5A5A5A5A, i32::MIN, 3]);
+        let n_ops = 1 + rng.below(24) as usize;
+        let mut ops: Vec<(u8, i32)> = vec![];
+        while ops.len() < n_ops {
+            let code = match rng.below(20) {
+                0..=6 => 0u8,
+                7..=8 => 1,
+                9 => 2,
+                10 => 3,
+                11 => 4,
+                12 => if rng.chance(1, 4) { 5 } else { 1 },
+                13..=14 => 6,
+                15..=16 => 7,
+                17 => 8,
+                18 => if rng.chance(1, 2) { 9 } else { 10 },
+                _ => 11,
+            };
+            match code {
+                0 => ops.push((0, *rng.pick(&[0i32, 1, 2, 3, 4, -1, 5, 100, -7, i32::MAX]))),
+                11 => {
+                    let k = rng.below(4) as i32;
+                    ops.push((11, k));
+                    for _ in 0..k {
+                        ops.push((0, rng.range(-3, 6) as i32));
+                    }
+                }
+                c => ops.push((c, 0)),
+            }
+            s.count(&format!("vstack:op{code}"));
+        }
+        let run_with = |fill: i32| -> String {
+            let mut buf = vec![fill; cap];
+            let r = catch(|| verif_hooks::hint_value_stack::run(&mut buf, pedantic, &ops));
+            match r {
+                Ok(outs) => outs
+                    .iter()
+                    .map(|o| match o {
+                        Ok(vs) => format!("ok{}", vs.iter().map(|v| format!(" {v}")).collect::<String>()),
+                        Err(e) => e.clone(),
+                    })
+                    .collect::<Vec<_>>()
+                    .join("|"),
+                Err(_) => "trap".into(),
+            }
+        };
+        let got = run_with(prefill);
+        let other = run_with(prefill.wrapping_mul(31).wrapping_add(0x1234567));
+        let flat: Vec<String> = ops.iter().map(|(c, a)| format!("{c} {a}")).collect();
+        let req = format!("vstack {cap} {} {prefill} {}", pedantic as u8, flat.join(" "));
+        s.oracle("vstack.buffer_independent", got == other, || req.clone(), || format!("{got} | {other}"));
+        for o in got.split('|') {
+            s.count(if o.starts_with("ok") { "vstack:ok" } else if o.contains("Overflow") { "vstack:overflow" } else { "vstack:underflow" });
+        }
+        s.case("vstack", req, got);
+    }
+}
+
+// ---------------------------------------------------------------------------------------------
+// part G: SimpleGlyph::read_points_fast into dirty point / flag buffers
+
+fn part_rpf(cfg: &Config, s: &mut Session, rng: &mut Rng) {
+    use read_fonts::{tables::glyf::SimpleGlyph, FontData, FontRead};
+    let n = if cfg.thorough() { 40000 } else { 5000 };
+    for _ in 0..n {
+        let np = rng.below(9) as usize;
+        // flags with repeats, then coordinates as the flags demand
+        let mut flags: Vec<u8> = vec![];
+        let mut expanded: Vec<u8> = vec![];
+        while expanded.len() < np {
+            let f = (rng.below(64) as u8) & !0x08;
+            if rng.chance(1, 3) {
+                let rep = rng.below(4) as u8;
+                flags.push(f | 0x08);
+                flags.push(rep);
+                for _ in 0..=rep {
+                    expanded.push(f);
+                }
+            } else {
+                flags.push(f);
+                expanded.push(f);
+            }
+        }
+        expanded.truncate(np);
+        let mut data = flags.clone();
+        for (short, same) in [(0x02u8, 0x10u8), (0x04, 0x20)] {
+            for f in &expanded {
+                if f & short != 0 {
+                    data.push(rng.below(256) as u8);
+                } else if f & same == 0 {
+                    data.extend_from_slice(&(rng.range(-300, 300) as i16).to_be_bytes());
+                }
+            }
+        }
+        // damage: truncate / append
+        match rng.below(8) {
+            0 => {
+                let k = rng.below(data.len() as u64 + 1) as usize;
+                data.truncate(k);
+                s.count("rpf:truncated");
+            }
+            1 => {
+                data.extend(rng.bytes(3));
+                s.count("rpf:extra-bytes");
+            }
+            _ => s.count("rpf:as-built"),
+        }
+        let mut g: Vec<u8> = vec![];
+        g.extend_from_slice(&(if np == 0 { 0i16 } else { 1 }).to_be_bytes());
+        g.extend_from_slice(&[0u8; 8]);
+        if np > 0 {
+            g.extend_from_slice(&((np - 1) as u16).to_be_bytes());
+        }
+        g.extend_from_slice(&0u16.to_be_bytes());
+        g.extend_from_slice(&data);
+        let Ok(glyph) = SimpleGlyph::read(FontData::new(&g)) else {
+            s.count("rpf:unreadable");
+            continue;
+        };
+        let n_pts = glyph.num_points();
+        let gd = glyph.glyph_data().to_vec();
+        let (px, py, pf) = (rng.range(-5, 500) as i32, rng.range(-5, 500) as i32, rng.below(256) as u8);
+        let run_with = |px: i32, py: i32, pf: u8| -> String {
+            let mut pts = vec![Point::new(px, py); n_pts];
+            let mut fl = vec![PointFlags::from_bits(pf); n_pts];
+            match catch(|| glyph.read_points_fast(&mut pts, &mut fl)) {
+                Ok(Ok(())) => format!(
+                    "ok{}",
+                    pts.iter().zip(&fl).map(|(p, f)| format!(" {} {} {}", p.x, p.y, f.to_bits() & 1)).collect::<String>()
+                ),
+                Ok(Err(_)) => "err".into(),
+                Err(_) => "trap".into(),
+            }
+        };
+        let got = run_with(px, py, pf);
+        let other = run_with(py ^ 0x55, px.wrapping_add(77), !pf);
+        let req = format!("rpf {n_pts} {px} {py} {pf} {}", gd.iter().map(|b| b.to_string()).collect::<Vec<_>>().join(" "));
+        s.oracle("rpf.buffer_independent", got == other, || req.clone(), || format!("{got} | {other}"));
+        s.count(if got.starts_with("ok") { "rpf:ok" } else { "rpf:err" });
+        s.case("rpf", req, got);
+    }
+}
+
 fn run(cfg: &Config, s: &mut Session) {
     let mut rng = Rng::new(cfg.seed);
     part_to_path(cfg, s, &mut rng);
@@ -1474,6 +1643,9 @@ fn run(cfg: &Config, s: &mut Session) {
     let mut rng = Rng::new(cfg.seed ^ 0xD12);
     part_counts(cfg, s, &mut rng);
     part_state_fonts(cfg, s, &mut rng);
+    let mut rng = Rng::new(cfg.seed ^ 0xF12);
+    part_vstack(cfg, s, &mut rng);
+    part_rpf(cfg, s, &mut rng);
     let _ = Location::new(0);
 }
 
